@@ -336,7 +336,8 @@ set-up when both parameters are just above 1, f64 included), repaired by fix
 6c1c91b; asymmetric near-1 pairs were added to the Beta grid and re-find it on
 the pre-fix source in both float types. A fourth run (seeds 41–44 × three
 generators × 15 checks = 180 runs, binary of the state after round 5) printed
-no VIOLATION at all.
+no VIOLATION at all, and neither did a fifth run on the final binary (seeds
+51–53 × three generators × the ten checks changed after round 5 = 90 runs).
 
 {appe}
 ## Status / next steps (for a later session)
